@@ -8,6 +8,8 @@
    continuous round trip, exp(log x) = x up to an ulp): see the manifest. *)
 From Verif Require Import model.Base model.Domain proofs.DomainProofs.
 From Coq Require Import Qround Lqa Lia.
+From Coq Require Reals Lra.
+From Verif Require model.DomainR proofs.DomainRProofs.
 Open Scope Q_scope.
 
 (* ---- decoded vectors are members ------------------------------------------------------- *)
@@ -186,6 +188,115 @@ Theorem c07_finite_range_encode_total :
     exists i, fr_map_to_int r x = Some i.
 Proof. exact fr_map_to_int_total. Qed.
 Print Assumptions c07_finite_range_encode_total.
+
+(* ======================================================================================== *)
+(* The same statements over the Coq REALS, where LogScaling (ln / exp) and ReverseLogScaling
+   (-ln(1-x) / 1-exp(-y)) are instances of the scaling record (model/DomainR.v: the definitions
+   through a Scaling restated over R).  [real_scaling sc lo hi] = sc is LinearScaling, or
+   LogScaling with 0 < lo, or ReverseLogScaling with 0 <= lo and hi < 1 (what the constructors
+   accept); the inverse / monotonicity facts are PROVED (real_scaling_good), not assumed.
+   These theorems depend on the axioms of the standard library's real numbers. *)
+Module OverR.
+Import Coq.Reals.Reals Coq.micromega.Lra Verif.model.DomainR Verif.proofs.DomainRProofs.
+Local Open Scope R_scope.
+
+(* every point of [0,1] decodes to a member: any scaling at all *)
+Theorem c07_decode_member_R :
+  forall eps r v, 0 <= eps -> rc_lo r <= rc_hi r -> 0 <= v <= 1 ->
+    exists x, cont_from_ndR eps r v = Some x /\ rc_lo r <= x <= rc_hi r.
+Proof.
+  intros eps r v He Hl Hv. destruct (cont_decode_totalR eps r v He Hv) as [x E].
+  exists x. split; [exact E | exact (cont_decode_memberR eps r v x Hl E)].
+Qed.
+Print Assumptions c07_decode_member_R.
+
+Theorem c07_decode_member_integer_R :
+  forall eps r v, 0 <= eps -> (ri_lo r <= ri_hi r)%Z -> 0 <= v <= 1 ->
+    exists z, int_from_ndR eps r v = Some z /\ (ri_lo r <= z <= ri_hi r)%Z.
+Proof.
+  intros eps r v He Hl Hv. destruct (int_decode_totalR eps r v He Hv) as [z E].
+  exists z. split; [exact E | exact (int_decode_memberR eps r v z Hl E)].
+Qed.
+Print Assumptions c07_decode_member_integer_R.
+
+(* continuous range, linear / log / reverse-log: from_ndarray (to_ndarray x) = x EXACTLY *)
+Theorem c07_roundtrip_continuous_R :
+  forall eps r x, 0 <= eps -> real_scaling (rc_sc r) (rc_lo r) (rc_hi r) -> rc_lo r <= x <= rc_hi r ->
+    exists e, cont_to_ndR eps r x = Some e /\ 0 <= e <= 1 /\ cont_from_ndR eps r e = Some x.
+Proof.
+  intros eps r x He Hs Hx. apply cont_roundtripR; [exact He | exact (proj1 (real_scaling_good _ _ _ Hs)) | exact Hx].
+Qed.
+Print Assumptions c07_roundtrip_continuous_R.
+
+(* lograndint: round(clip(exp(..))) recovers every member (exp (ln y) = y and the +-0.5 margins) *)
+Theorem c07_roundtrip_exact_integer_log_R :
+  forall eps r x, 0 < eps < 1 / 2 -> ri_sc r = logR -> (1 <= ri_lo r)%Z -> (ri_lo r <= x <= ri_hi r)%Z ->
+    exists e, int_to_ndR eps r x = Some e /\ 0 <= e <= 1 /\ int_from_ndR eps r e = Some x.
+Proof.
+  intros eps r x He Hsc Hlo Hx. apply int_roundtripR; [exact He | | exact Hx].
+  rewrite Hsc. apply logR_good. simpl. apply IZR_le in Hlo. lra.
+Qed.
+Print Assumptions c07_roundtrip_exact_integer_log_R.
+
+(* randint *)
+Theorem c07_roundtrip_exact_integer_linear_R :
+  forall eps r x, 0 < eps < 1 / 2 -> ri_sc r = linearR -> (ri_lo r <= x <= ri_hi r)%Z ->
+    exists e, int_to_ndR eps r x = Some e /\ 0 <= e <= 1 /\ int_from_ndR eps r e = Some x.
+Proof.
+  intros eps r x He Hsc Hx. apply int_roundtripR; [exact He | | exact Hx]. rewrite Hsc. apply linearR_good.
+Qed.
+Print Assumptions c07_roundtrip_exact_integer_linear_R.
+
+(* active sub-range, linear / log / reverse-log *)
+Theorem c07_active_range_R :
+  forall eps r a b v x, 0 <= eps -> real_scaling (rc_sc r) (rc_lo r) (rc_hi r) -> crangeR_ok r ->
+    cont_boundsR eps r = Some (a, b) -> a <= v <= b -> cont_from_ndR eps r v = Some x ->
+    0 <= a /\ b <= 1 /\ rc_alo r <= x <= rc_ahi r.
+Proof.
+  intros eps r a b v x He Hs. destruct (real_scaling_good _ _ _ Hs) as [Hg Hm].
+  exact (cont_activeR eps r a b v x He Hg Hm).
+Qed.
+Print Assumptions c07_active_range_R.
+
+Theorem c07_active_range_integer_log_R :
+  forall eps r a b v z, 0 < eps < 1 / 2 -> ri_sc r = logR -> (1 <= ri_lo r)%Z ->
+    crangeR_ok (ri_cont eps r) ->
+    int_boundsR eps r = Some (a, b) -> a <= v <= b -> int_from_ndR eps r v = Some z ->
+    0 <= a /\ b <= 1 /\ (ri_alo r <= z <= ri_ahi r)%Z.
+Proof.
+  intros eps r a b v z He Hsc Hlo. apply int_activeR; [exact He | | ].
+  - rewrite Hsc. apply logR_good. simpl. apply IZR_le in Hlo. lra.
+  - rewrite Hsc. exact logR_mono.
+Qed.
+Print Assumptions c07_active_range_integer_log_R.
+
+(* samplers as functions of the uniform draw u in [0,1]: loguniform / reverseloguniform samples
+   are members, and in real arithmetic the clip of the code does nothing *)
+Theorem c07_sample_member_R :
+  forall sc lo hi u, lo <= hi -> real_scaling sc lo hi -> 0 <= u <= 1 ->
+    lo <= sample_float_scR sc lo hi u <= hi /\
+    sample_float_scR sc lo hi u = from_intR sc (to_intR sc lo + (to_intR sc hi - to_intR sc lo) * u).
+Proof.
+  intros sc lo hi u Hl Hs Hu. destruct (real_scaling_good _ _ _ Hs) as [Hg Hm].
+  split; [exact (sample_float_scR_member sc lo hi u Hl) | exact (sample_float_scR_unclipped sc lo hi u Hl Hg Hm Hu)].
+Qed.
+Print Assumptions c07_sample_member_R.
+
+(* lograndint sampler (no clip in the code): round(exp(uniform(ln lower, ln upper))) is a member *)
+Theorem c07_sample_member_integer_log_R :
+  forall lo hi u, (1 <= lo <= hi)%Z -> 0 <= u <= 1 -> (lo <= sample_int_logR lo hi u <= hi)%Z.
+Proof. exact sample_int_logR_member. Qed.
+Print Assumptions c07_sample_member_integer_log_R.
+
+(* non-vacuity: loguniform(1, 100) with active [2, 50]; reverseloguniform(0, 9/10) *)
+Example c07_example_R :
+  real_scaling logR 1 100 /\ real_scaling revlogR 0 (9 / 10) /\
+  crangeR_ok {| rc_lo := 1; rc_hi := 100; rc_sc := logR; rc_alo := 2; rc_ahi := 50 |}.
+Proof.
+  split; [constructor; lra|]. split; [constructor; lra|].
+  unfold crangeR_ok. simpl. repeat split; try lra; destruct (Rlt_dec 0 _); try reflexivity; lra.
+Qed.
+End OverR.
 
 (* ---- non-vacuity ---------------------------------------------------------------------------- *)
 Example c07_example :
